@@ -327,4 +327,5 @@ def check(ctx):
     # ---- shared mechanisms: the neighbour's rules run as obligations of this property
     ctx.include("C18", "C13.R3", only=['C18.R1'])
     ctx.include("C01", "C13.R3", only=['C01.R6'])
-    ctx.rule("R3", "shared mechanisms, run as obligations of this property: the smoothing prior the tau2 kernel conditions on is the degenerate normal as documented (C18.R1); the conditional is evaluated through a targeted update that reaches every ancestor, also through `at` (C01.R6).")
+    ctx.include("C09", "C13.R3", only=['C09.R3'])
+    ctx.rule("R3", "shared mechanisms, run as obligations of this property: 'given all other CURRENT values': every kernel of a sequence starts from the state its predecessor left (C09.R3); the smoothing prior the tau2 kernel conditions on is the degenerate normal as documented (C18.R1); the conditional is evaluated through a targeted update that reaches every ancestor, also through `at` (C01.R6).")
